@@ -137,6 +137,10 @@ func RouteTree(r *rand.Rand, o RouteOpt) *model.RouteSpec {
 		root.GroupWait, root.GroupInterval, root.RepeatInterval = &gw, &gi, &ri
 	}
 	root.Routes = children(r, o, 1)
+	if o.MixedMatchers && r.Intn(4) == 0 {
+		// route labels on the root (drawn last, so that the rest of the tree does not depend on this option)
+		root.Labels = map[string]string{Pick(r, []string{"rl1", "rl2", "rl3"}): fmt.Sprintf("root%d", r.Intn(3))}
+	}
 	return root
 }
 
